@@ -120,7 +120,7 @@ class UsedQubitIndicesVisitor(Visitor):
     def visit_Register(self, obj, context=None):
         """Called when a register (or register alias) is an argument to a gate. Jaqal
         does not currently allow this."""
-        size = obj.resolve_size()
+        size = int(obj.resolve_size())
         indices = defaultdict(set)
         for reg, idx in (obj[i].resolve_qubit(context) for i in range(size)):
             indices[reg.name].add(idx)
